@@ -45,6 +45,8 @@ enum Op {
 }
 
 struct Prog {
+    /// entries added under the dead owner id before the threads start (the reader's first snapshot sees them)
+    pre_abandon: usize,
     cap: usize,
     k: usize,
     writers: Vec<Vec<Op>>,
@@ -56,12 +58,33 @@ impl Prog {
     fn gen(rng: &mut Rng) -> Prog {
         let cap = rng.range(1, 3) as usize;
         let k = *rng.pick(&[0usize, 3, 15]);
-        let nw = rng.range(1, 2) as usize;
+        // one third of the programs are "dead owner" programs: writer 0 abandons entries, writer 1
+        // recovers them while writer 0 keeps adding and the reader keeps refreshing
+        let dead_program = rng.chance(1, 3);
+        // half of the dead-owner programs are the pure race: the dead entries exist before the threads
+        // start, one writer only adds, the other only recovers, the reader refreshes
+        let pure_race = dead_program && rng.chance(1, 2);
+        let cap = if pure_race { rng.range(2, 3) as usize } else { cap };
+        let pre_abandon = if pure_race { rng.range(1, (cap / 2).max(1) as u64) as usize } else { 0 };
+        let nw = if dead_program { 2 } else { rng.range(1, 2) as usize };
         let mut writers = Vec::new();
         for w in 0..nw {
             let mut v = Vec::new();
-            if w == 0 && rng.chance(1, 3) {
-                v.push(Op::Abandon);
+            if pure_race {
+                if w == 0 {
+                    for _ in 0..rng.range(1, (cap - pre_abandon).max(1) as u64) {
+                        v.push(Op::Add);
+                    }
+                } else {
+                    v.push(Op::Recover);
+                }
+                writers.push(v);
+                continue;
+            }
+            if w == 0 && dead_program {
+                for _ in 0..rng.range(1, 2) {
+                    v.push(Op::Abandon);
+                }
             }
             for _ in 0..rng.range(3, 8) {
                 v.push(match rng.below(10) {
@@ -69,17 +92,25 @@ impl Prog {
                     5..=6 => Op::RemOld,
                     7..=8 => Op::RemNew,
                     _ => {
-                        if w != 0 { Op::Recover } else { Op::Add }
+                        if w != 0 && dead_program { Op::Recover } else { Op::Add }
                     }
                 });
             }
+            if w == 1 && dead_program {
+                let pos = rng.below(v.len() as u64 + 1) as usize;
+                v.insert(pos, Op::Recover);
+            }
             writers.push(v);
         }
-        Prog { cap, k, writers, refreshes: rng.range(2, 7) as usize, keep_at_end: rng.chance(1, 2) }
+        if pure_race {
+            return Prog { pre_abandon, cap, k, writers, refreshes: rng.range(2, 5) as usize, keep_at_end: true };
+        }
+        Prog { pre_abandon, cap, k, writers, refreshes: rng.range(2, 7) as usize, keep_at_end: rng.chance(1, 2) }
     }
     fn desc(&self) -> Json {
         Json::obj()
             .set("capacity", self.cap)
+            .set("entries_of_dead_owner_before_start", self.pre_abandon)
             .set("entry_bytes", 8 + 8 * self.k)
             .set("writers", Json::Arr(self.writers.iter().map(|t| Json::Str(t.iter().map(|o| format!("{:?}", o)).collect::<Vec<_>>().join(" "))).collect()))
             .set("reader_refreshes", self.refreshes)
@@ -102,11 +133,19 @@ const DEAD: u64 = 999;
 
 fn execute<const CAP: usize, const K: usize>(p: &Prog, mode: &Mode) -> ExecResult {
     let c = FixedSizeContainer::<Entry<K>, CAP>::new();
+    let mut pre_log: Vec<E> = Vec::new();
+    for n in 0..p.pre_abandon {
+        let id = (1u64 << 48) | (9 << 32) | (n as u64 + 1);
+        let call = ts::now();
+        let r = c.add(Entry::<K>::new(id), OwnerId::new(DEAD).unwrap());
+        pre_log.push(E::Add { id, call, ret: ts::now(), ok: r.is_ok(), dead: true });
+    }
     let abandon_done = AtomicBool::new(!p.writers[0].contains(&Op::Abandon));
     let writers_done = AtomicBool::new(false);
     let nw = p.writers.len();
     let logs: Mutex<Vec<Vec<E>>> = Mutex::new(vec![Vec::new(); nw + 1]);
     let kept: Mutex<Vec<u64>> = Mutex::new(Vec::new());
+    let reader_state: Mutex<Option<ContainerState<Entry<K>>>> = Mutex::new(None);
     let mut bodies: Vec<Box<dyn FnOnce() + Send>> = Vec::new();
     for (w, ops) in p.writers.iter().enumerate() {
         let (c, abandon_done, logs, kept) = (&c, &abandon_done, &logs, &kept);
@@ -173,7 +212,7 @@ fn execute<const CAP: usize, const K: usize>(p: &Prog, mode: &Mode) -> ExecResul
         }));
     }
     {
-        let (c, logs, writers_done, n) = (&c, &logs, &writers_done, p.refreshes);
+        let (c, logs, writers_done, n, reader_state) = (&c, &logs, &writers_done, p.refreshes, &reader_state);
         bodies.push(Box::new(move || {
             let mut st = c.get_state();
             let mut log = Vec::new();
@@ -196,11 +235,13 @@ fn execute<const CAP: usize, const K: usize>(p: &Prog, mode: &Mode) -> ExecResul
                 log.push(E::Snap { call, ret, changed, ids, torn });
             }
             logs.lock().unwrap()[nw] = log;
+            *reader_state.lock().unwrap() = Some(st);
         }));
     }
     let stats = sched::run_threads(mode, bodies);
     writers_done.store(true, Relaxed);
-    let logs = logs.into_inner().unwrap();
+    let mut logs = logs.into_inner().unwrap();
+    logs.push(pre_log);
     let kept = kept.into_inner().unwrap();
     let mut viol: Vec<(String, String, String)> = Vec::new();
     let mut v = |rule: &str, msg: String| viol.push((rule.to_string(), rule.to_string(), msg));
@@ -309,7 +350,10 @@ fn execute<const CAP: usize, const K: usize>(p: &Prog, mode: &Mode) -> ExecResul
     }
     // quiescent exactness: recover the dead owner, then the snapshot must be exactly the kept set
     unsafe { c.recover(OwnerId::new(DEAD).unwrap(), |_| true, ReleaseMode::Default) };
-    let mut st = c.get_state();
+    let mut st = reader_state.into_inner().unwrap().expect("reader thread stored its state");
+    let changed_first = unsafe { c.update_state(&mut st) };
+    let _ = changed_first;
+    let fresh = c.get_state();
     let collect = |st: &ContainerState<Entry<K>>| {
         let mut ids = Vec::new();
         let mut torn = 0;
@@ -328,6 +372,9 @@ fn execute<const CAP: usize, const K: usize>(p: &Prog, mode: &Mode) -> ExecResul
     exp.sort();
     if torn > 0 {
         v("torn_entry", "quiescent snapshot has a torn entry".into());
+    }
+    if collect(&fresh).0 != exp {
+        v("quiescent_snapshot_wrong", format!("a fresh snapshot at quiescence shows {:x?}, registered {:x?}", collect(&fresh).0, exp));
     }
     if ids != exp {
         v("quiescent_snapshot_wrong", format!("quiescent snapshot {:x?}, registered {:x?}", ids, exp));
@@ -379,6 +426,7 @@ pub fn run(args: &Args) -> Report {
                 w.truncate(2);
             }
             prog.cap = 3;
+            prog.pre_abandon = 0;
             prog.writers.truncate(1);
             prog.writers[0].truncate(3);
             while prog.writers[0].len() < 2 {
